@@ -98,8 +98,12 @@ theorem isValid_spec (bs : List UInt8) :
 example : fromString [0xE2, 0x82, 0xAC] 3 = .ok 0x20AC := by decide
 example : fromString [0xE2, 0x82] 3 = .oob := by decide          -- a caller lying about the length faults
 example : isValid [0xF0, 0x9F, 0x98, 0x80, 0x41] 5 = .ok true := by
-  simp [isValid, isValidLoop, rdR, rd, utf8Length, validBad4]
-example : isValid [0xF0, 0x9F, 0x98] 3 = .ok false := by simp [isValid, isValidLoop, rdR, rd, utf8Length, validBad4]  -- truncated: rejected without reading on
+  have a : utf8Length 0xF0 = 4 := len4 0 (by decide)
+  have b : utf8Length 0x41 = 1 := len_ascii 0x41 (by decide)
+  simp [isValid, isValidLoop, rdR, rd, a, b, validBad4]
+example : isValid [0xF0, 0x9F, 0x98] 3 = .ok false := by  -- truncated: rejected without reading on
+  have a : utf8Length 0xF0 = 4 := len4 0 (by decide)
+  simp [isValid, isValidLoop, rdR, rd, a]
 example : toString 0x20AC = [0xE2, 0x82, 0xAC] := by decide
 
 /-! ## fromHex -/
@@ -128,29 +132,31 @@ theorem base64_decodes_rfc4648 (bs : List UInt8) :
   exact x.toNat_lt
 
 /-- For EVERY input (arbitrary bytes, arbitrary length) `fromBase64` reads its decode table only at
-    indices below the table size and writes its output only inside the reserved buffer.
-    (This is defect D26: with the signed comparison `in[i] > 'z'` the generated guard lets bytes
-    >= 0x80 through and this theorem does not check.) -/
-theorem base64_no_oob (inp : List Nat) : fromBase64 inp ≠ .oob := by
-  obtain ⟨r, hr⟩ := fromBase64_ok inp
+    indices below the table size and accesses `out[j]` only inside the bytes it reserved
+    (`result.reserve(E)`, `E` taken from the source).  (This is defect D26: with the signed comparison
+    `in[i] > 'z'` bytes >= 0x80 pass the generated per-byte tests and this theorem does not check.) -/
+theorem base64_no_oob (inp : List UInt8) : fromBase64 (inp.map UInt8.toNat) ≠ .oob := by
+  obtain ⟨r, hr⟩ := fromBase64_ok _ (bytes_lt inp)
   rw [hr]; intro h; cases h
 
 /-- full functional specification for ARBITRARY input: `fromBase64` returns `Spec.b64Decode` of its
     argument - empty when the length is not a multiple of four or a byte outside the alphabet comes
     before the first `=`, otherwise the complete bytes of the symbols in front of the first `=`
     (whatever follows that `=` is ignored); never a fault -/
-theorem base64_spec (inp : List Nat) : fromBase64 inp = .ok (Spec.b64Decode inp) := fromBase64_spec inp
+theorem base64_spec (inp : List UInt8) :
+    fromBase64 (inp.map UInt8.toNat) = .ok (Spec.b64Decode (inp.map UInt8.toNat)) :=
+  fromBase64_spec _ (bytes_lt inp)
 
-/-- the table-index part of `base64_no_oob` on its own: a byte that passes the guard indexes below 123 -/
-theorem base64_index_lt_table (b : Nat) (h : base64GuardRejects b = false) :
-    0 ≤ base64Index b ∧ (base64Index b).toNat < base64de.length := by
-  unfold base64GuardRejects at h
-  rw [decide_eq_false_iff_not] at h
-  unfold base64Index
-  rw [b64_table_len]
-  omega
+/-- the table-index part of `base64_no_oob` on its own: whatever the input byte, the per-byte tests of the
+    source (in their source order) never read `base64de` outside its 123 entries -/
+theorem base64_table_read_in_bounds (b : UInt8) : b64Byte b.toNat ≠ .oob :=
+  b64Byte_no_oob _ b.toNat_lt
 
-example : base64GuardRejects 65 = false ∧ base64GuardRejects 0x80 = true := by decide
+/-- the output-buffer part: the capacity requested by the source suffices for 3 bytes per 4 symbols -/
+theorem base64_reserve_suffices (inlen : Nat) (h : inlen % 4 = 0) : 3 * (inlen / 4) ≤ b64Reserve inlen :=
+  reserve_enough inlen h
+
+example : b64Byte 65 = .ok (.val 0) ∧ b64Byte 0x80 = .ok .reject ∧ b64Byte 61 = .ok .stop := by decide
 example : Spec.rfc4648Encode [0x66, 0x6F] = [90, 109, 56, 61] := by decide           -- "fo" -> "Zm8="
 example : fromBase64 [90, 109, 56, 61] = .ok [0x66, 0x6F] := by decide
 example : fromBase64 [0xFF, 0xFF, 0xFF, 0xFF] = .ok [] := by decide                   -- D26 input: rejected, no fault
